@@ -1,22 +1,16 @@
 import DFV.Lemmas.C16Read
+import DFV.Lemmas.C16Scan
 /-! C16 helper lemmas, part 5: `_from_vtk (to_vtk f)`, files, the text writer's rounding. -/
 namespace DFV.C16
 open DFV DFV.Mesh
 
 theorem mkField_ok (m : Mesh) (dim : Nat) (data : NDA (List Rat)) (valid : NDA Bool)
-    (vin vd : Option (List String)) (h1 : 1 ≤ dim) (hv : vdimsSet dim vin = .ok vd)
-    (hn : dim = 1 ∨ vd ≠ none) :
+    (vin vd : Option (List String)) (h1 : 1 ≤ dim) (hv : vdimsSet dim vin = .ok vd) :
     mkField m dim data valid vin =
       .ok { mesh := m, nvdim := dim, data := data, valid := valid, vdims := vd,
             vmap := defaultVmap dim m.region.dims vd, unit := none } := by
   unfold mkField
   rw [if_neg (by omega), hv]
-  simp only
-  rw [if_neg]
-  rintro ⟨a, _, c⟩
-  rcases hn with hn | hn
-  · exact a hn
-  · exact hn c
 
 /-- the labels the reader hands to the constructor, and what the constructor makes of them -/
 theorem vdims_read (f : Fld) (nx ny nz : Nat) (h : WF f nx ny nz) :
@@ -61,13 +55,7 @@ theorem fromCells_toVtk (f : Fld) (nx ny nz : Nat) (h : WF f nx ny nz) (g : Grid
   obtain ⟨value, hvalue⟩ := unflat4_ok nx ny nz f.nvdim _ hfl
   obtain ⟨vld, hvld⟩ := unflat3_ok nx ny nz _ hvl
   have hmk := mkField_ok m1 f.nvdim (cellsOf value [nx, ny, nz] f.nvdim) (toBool vld [nx, ny, nz]) _ _ h.nv
-    (vdims_read f nx ny nz h) (by
-      by_cases h1 : f.nvdim = 1
-      · exact Or.inl h1
-      · right
-        rw [if_neg h1]
-        obtain ⟨vs, hvs, _⟩ := h.labels (by have := h.nv; omega)
-        rw [hvs]; simp)
+    (vdims_read f nx ny nz h)
   refine ⟨{ mesh := m1, nvdim := f.nvdim, data := cellsOf value [nx, ny, nz] f.nvdim,
              valid := toBool vld [nx, ny, nz], vdims := if f.nvdim = 1 then none else f.vdims,
              vmap := defaultVmap f.nvdim m1.region.dims (if f.nvdim = 1 then none else f.vdims), unit := none },
